@@ -14,6 +14,7 @@ import (
 	"os/exec"
 	"strings"
 	"sync"
+	"sync/atomic"
 	"time"
 
 	"verifharness/hxlib"
@@ -140,6 +141,11 @@ func (p *proxy) Close() error {
 	if p.cmd == nil {
 		return nil
 	}
+	defer func() {
+		if strings.Contains(p.stderr.String(), "C06-RELAUNCH") {
+			atomic.AddInt64(&nRelaunch, 1)
+		}
+	}()
 	if p.dead == "" {
 		p.in.Close()
 		done := make(chan struct{})
